@@ -39,6 +39,9 @@ var ExtraBases []func(r *rand.Rand) ([]byte, string, string)
 var hostileInts = []string{"0", "-1", "2147483648", "9223372036854775807", "4294967295", "99999999999999999999"}
 
 type base struct {
+	rebuild func(m *pdfw.Mutation, rev int) []byte // PDF bases: the same file written with one semantic fault
+	objStmN [][]int
+	xrefCnt []int
 	id     string
 	kind   string
 	ext    string
@@ -249,6 +252,58 @@ func fixupXRef(b *base, data []byte) []byte {
 		}
 	}
 	return out
+}
+
+// pdfSemanticFaults damages data inside encoded streams (object-stream headers,
+// xref-stream entries) by re-writing the file with one pdfw.Mutation; all
+// offsets and lengths stay consistent, so the code behind the damaged field is
+// reached. Values include the boundaries of the decoded data (len-1, len, len+1).
+func pdfSemanticFaults(b *base, emit func(desc string, data []byte)) {
+	if b.rebuild == nil {
+		return
+	}
+	abs := []int64{0, -1, 1, 7, 2147483648, 9223372036854775807}
+	for rev, conts := range b.objStmN {
+		for ci, n := range conts {
+			for idx := 0; idx < n && idx < 6; idx++ {
+				for _, v := range abs {
+					emit(fmt.Sprintf("objstm r%d c%d entry %d offset=%d", rev, ci, idx, v), b.rebuild(&pdfw.Mutation{Kind: "objstm-off", Cont: ci, Index: idx, Value: v}, rev))
+					emit(fmt.Sprintf("objstm r%d c%d entry %d objnum=%d", rev, ci, idx, v), b.rebuild(&pdfw.Mutation{Kind: "objstm-num", Cont: ci, Index: idx, Value: v}, rev))
+				}
+				for _, rel := range []string{"bodylen", "datalen"} {
+					for _, dv := range []int64{-2, -1, 0, 1, 64} {
+						emit(fmt.Sprintf("objstm r%d c%d entry %d offset=%s%+d", rev, ci, idx, rel, dv), b.rebuild(&pdfw.Mutation{Kind: "objstm-off", Cont: ci, Index: idx, Rel: rel, Value: dv}, rev))
+					}
+				}
+			}
+			for _, v := range abs {
+				emit(fmt.Sprintf("objstm r%d c%d /First=%d", rev, ci, v), b.rebuild(&pdfw.Mutation{Kind: "objstm-first", Cont: ci, Value: v}, rev))
+				emit(fmt.Sprintf("objstm r%d c%d /N=%d", rev, ci, v), b.rebuild(&pdfw.Mutation{Kind: "objstm-n", Cont: ci, Value: v}, rev))
+			}
+			emit(fmt.Sprintf("objstm r%d c%d /N=n+1", rev, ci), b.rebuild(&pdfw.Mutation{Kind: "objstm-n", Cont: ci, Value: int64(n + 1)}, rev))
+			for _, dv := range []int64{-1, 0, 1} {
+				emit(fmt.Sprintf("objstm r%d c%d /First=datalen%+d", rev, ci, dv), b.rebuild(&pdfw.Mutation{Kind: "objstm-first", Cont: ci, Rel: "datalen", Value: dv}, rev))
+			}
+		}
+	}
+	for rev, n := range b.xrefCnt {
+		for idx := 0; idx < n && idx < 12; idx++ {
+			for field := 0; field < 3; field++ {
+				vals := []int64{0, 1, 2, 3, 255, 65535}
+				if field == 1 {
+					vals = []int64{0, 1, 9, 4294967295}
+				}
+				for _, v := range vals {
+					emit(fmt.Sprintf("xrefstm r%d entry %d field %d=%d", rev, idx, field, v), b.rebuild(&pdfw.Mutation{Kind: "xref-field", Index: idx, Field: field, Value: v}, rev))
+				}
+				if field == 1 {
+					for _, dv := range []int64{-1, 0, 5, 4096} {
+						emit(fmt.Sprintf("xrefstm r%d entry %d offset=xrefpos%+d", rev, idx, dv), b.rebuild(&pdfw.Mutation{Kind: "xref-field", Index: idx, Field: 1, Rel: "filesize", Value: dv}, rev))
+					}
+				}
+			}
+		}
+	}
 }
 
 // byteMutations are seed-determined (replayable) random damage.
@@ -559,9 +614,16 @@ func pdfBase(c *fw.Ctx, i int) *base {
 		g2, _ := g.Evolve(r)
 		docs = append(docs, g2.Doc)
 	}
-	b := pdfw.Build(r.Int63(), lay, docs)
+	seed := r.Int63()
+	b := pdfw.Build(seed, lay, docs)
 	return &base{id: fmt.Sprintf("pdf%d", i), kind: "pdf", ext: "pdf", data: b.Bytes, fields: b.Fields,
-		desc: fmt.Sprintf("xref=%v objstm=%s filter=%s len=%s", lay.XRef, lay.ObjStm, lay.Filter, lay.LenMode)}
+		desc:    fmt.Sprintf("xref=%v objstm=%s filter=%s len=%s", lay.XRef, lay.ObjStm, lay.Filter, lay.LenMode),
+		objStmN: b.ObjStmN, xrefCnt: b.XRefCount,
+		rebuild: func(m *pdfw.Mutation, rev int) []byte {
+			l2 := lay
+			l2.Mutate, l2.MutateRev = m, rev
+			return pdfw.Build(seed, l2, docs).Bytes
+		}}
 }
 
 func htmlBase(c *fw.Ctx, i int) *base {
@@ -636,6 +698,7 @@ func buildCases(c *fw.Ctx) []*Case {
 		switch {
 		case b.kind == "pdf":
 			classic := !bytes.Contains(b.data, []byte("/XRef"))
+			pdfSemanticFaults(b, emit)
 			pdfSingleFaults(b, func(desc string, data []byte) {
 				add(b, desc, data)
 				if classic && !strings.HasPrefix(desc, "truncate") {
